@@ -84,6 +84,16 @@ class PolyAUsageStrategies(Enum):
     always = 3
 
 
+def open_indexed_fasta(reference, fai_file_name):
+    # pyfaidx writes a missing index directly under its final name; a run killed meanwhile would leave an empty or
+    # partial index that is newer than the reference and is trusted ever after (e.g. by --resume)
+    if not os.path.exists(fai_file_name) or os.path.getmtime(fai_file_name) < os.path.getmtime(reference):
+        tmp_fai_file_name = "%s.%d.tmp" % (fai_file_name, os.getpid())
+        Fasta(reference, indexname=tmp_fai_file_name)
+        os.replace(tmp_fai_file_name, fai_file_name)
+    return Fasta(reference, indexname=fai_file_name)
+
+
 def set_polya_requirement_strategy(flag, polya_requirement_strategy):
     if polya_requirement_strategy == PolyAUsageStrategies.auto:
         return flag
@@ -444,17 +454,19 @@ class DatasetProcessor:
             low_ext = outer_ext.lower()
             if low_ext in ['.gz', '.gzip', '.bgz']:
                 try:
-                    self.reference_record_dict = Fasta(self.args.reference, indexname=args.fai_file_name)
+                    self.reference_record_dict = open_indexed_fasta(self.args.reference, args.fai_file_name)
                 except UnsupportedCompressionFormat:
                     gunzipped_reference = os.path.join(args.output, ref_name)
                     if not os.path.exists(gunzipped_reference) or not self.args.resume:
-                        with open(gunzipped_reference, "w") as outf:
+                        # the copy gets its final name only when it is complete (a killed run leaves no partial one)
+                        with open(gunzipped_reference + ".tmp", "w") as outf:
                             shutil.copyfileobj(gzip.open(self.args.reference, "rt"), outf)
+                        os.replace(gunzipped_reference + ".tmp", gunzipped_reference)
                         logger.info("Loading uncompressed reference from " + gunzipped_reference)
                     self.args.reference = gunzipped_reference
-                    self.reference_record_dict = Fasta(self.args.reference, indexname=args.fai_file_name)
+                    self.reference_record_dict = open_indexed_fasta(self.args.reference, args.fai_file_name)
             else:
-                self.reference_record_dict = Fasta(self.args.reference, indexname=args.fai_file_name)
+                self.reference_record_dict = open_indexed_fasta(self.args.reference, args.fai_file_name)
         else:
             self.reference_record_dict = None
 
